@@ -35,32 +35,48 @@ func RunOne(fn func(), c Case, hang time.Duration) (out Outcome) {
 	out.Harness = c.Harness
 	done := make(chan struct{})
 	var st *State
+	classify := func(r any) {
+		switch r := r.(type) {
+		case AssumptionFailed:
+			out.Status = "assume-failed"
+		case AssertionFailed:
+			out.Status = "assert-failed"
+			out.Msg = r.Msg
+		case VectorExhausted:
+			out.Status = "exhausted"
+		default:
+			out.Status = "panic"
+			out.Msg = fmt.Sprint(r)
+			out.Stack = string(debug.Stack())
+		}
+	}
 	go func() {
 		defer close(done)
 		defer func() {
 			if r := recover(); r != nil {
-				switch r := r.(type) {
-				case AssumptionFailed:
-					out.Status = "assume-failed"
-				case AssertionFailed:
-					out.Status = "assert-failed"
-					out.Msg = r.Msg
-				case VectorExhausted:
-					out.Status = "exhausted"
-				default:
-					out.Status = "panic"
-					out.Msg = fmt.Sprint(r)
-					out.Stack = string(debug.Stack())
-				}
+				classify(r)
 			}
 		}()
 		st = Begin(c.Vector)
 		fn()
 		out.Status = "ok"
 	}()
+	hung := false
 	select {
 	case <-done:
 	case <-time.After(hang):
+		hung = true
+	}
+	// a failure recorded by any goroutine of the harness decides the outcome
+	// (the goroutine that raised it has exited; the others may have finished
+	// or be stuck behind it)
+	if st != nil {
+		if a := st.Aborted(); a != nil {
+			classify(a)
+			hung = false
+		}
+	}
+	if hung {
 		out.Status = "hang"
 		return out
 	}
